@@ -17,6 +17,7 @@ mod c10;
 mod c11;
 mod c12;
 mod c13;
+mod c14;
 mod alloc;
 
 #[global_allocator]
@@ -57,6 +58,7 @@ fn main() {
     "C11" => c11::run(&ctx),
     "C12" => c12::run(&ctx),
     "C13" => c13::run(&ctx),
+    "C14" => c14::run(&ctx),
     _ => {
       eprintln!("unknown property {}", prop);
       std::process::exit(2);
